@@ -54,10 +54,31 @@ def gen_params(rng):
             "allow_memory_overcommit": policy == "overbook", "random_seed": rng.randrange(10**6)}
 
 
+def scenario_run(spec):
+    from . import driver_sched
+    return canonical(driver_sched.run_scenario(spec["seed"], 0, spec["policy"], spec["flavour"], mode="obs"))
+
+
 def child_main():
     params = json.loads(sys.argv[1])
     common.import_repo()
-    sys.stdout.write("@@" + json.dumps(one_run(params)) + "\n")
+    out = scenario_run(params) if params.get("kind") == "scenario" else one_run(params)
+    sys.stdout.write("@@" + json.dumps(out) + "\n")
+
+
+def scenario_case(seed, tid):
+    """A scripted contention scenario (several preemptions in one round, suspensions ending together) under four hash seeds."""
+    common.import_repo()
+    rng = random.Random(seed)
+    spec = {"kind": "scenario", "seed": seed, "policy": rng.choice(["priority", "priority", "overbook", "priority-pool", "naive"]),
+            "flavour": rng.choice(["preempt", "herd", "herd", "mixed"])}
+    one_run(gen_params(random.Random(seed + 1)))
+    runs = [scenario_run(spec), scenario_run(spec), fresh(spec, 0), fresh(spec, 1), fresh(spec, 2), fresh(spec, rng.randrange(3, 10**6))]
+    enc = lambda x: json.dumps(x, sort_keys=True)
+    arr = [enc(ev) for ev in arrivals_only(runs[0])]
+    other = dict(spec, seed=seed + 1)
+    return {"tid": tid, "seed": seed, "params": spec, "runs": [[enc(ev) for ev in r] for r in runs], "arr": arr, "arr_other": arr,
+            "arr_seed2": [enc(ev) for ev in arrivals_only(scenario_run(other))]}
 
 
 def fresh(params, hashseed):
@@ -98,7 +119,7 @@ def case(seed, tid):
 
 def _one(args):
     seed, tid = args
-    return [case(seed, tid)]
+    return [case(seed, tid)] if tid % 2 == 0 else [scenario_case(seed, tid)]
 
 
 def gen_lines(n, seed):
